@@ -47,6 +47,19 @@ def _digest(out: Any) -> str:
     return hashlib.sha1(out).hexdigest()[:10]
 
 
+def _show(out: Any, limit: int = 400) -> str:
+    """Writer output for a quoted sample: text as text, binary as hex."""
+    if out is None:
+        return ''
+    if isinstance(out, bytes):
+        try:
+            text = out.decode('ascii')
+        except UnicodeDecodeError:
+            return out[:limit // 2].hex()
+        return text[:limit] if text.isprintable() or all(c.isprintable() or c in '\n\t' for c in text) else out[:limit // 2].hex()
+    return out[:limit]
+
+
 class Explorer:
     """Base value + every choice of <= d features set to each of their non-base values.
 
@@ -85,9 +98,6 @@ class Explorer:
                         continue
                     yield dev
 
-    def count(self, d: int) -> int:
-        return sum(1 for _ in self.dev_sets(d))
-
     def setting(self, dev: tuple) -> dict:
         chosen = dict(dev)
         return {n: self.features[n][chosen.get(n, 0)][1] for n in self.names}
@@ -122,10 +132,14 @@ class Explorer:
                          for n, i in dev)
 
     # -- execution
-    def run_dev(self, dev: tuple) -> Result:
+    def run_dev(self, dev: tuple, keep: bool = True) -> Result:
+        """Execute one selection.  Results are memoised when `keep` (sub-selections used for attribution and the
+        small selections every worker needs again); the bulk of the enumeration is not retained."""
         res = self._memo.get(dev)
         if res is None:
-            res = self._memo[dev] = self.evaluate(self.setting(dev))
+            res = self.evaluate(self.setting(dev))
+            if keep:
+                self._memo[dev] = res
         return res
 
     def culprits(self, dev: tuple, kind: str) -> list:
@@ -139,7 +153,7 @@ class Explorer:
         return failing or [dev]
 
     def record(self, acc: core.Acc, dev: tuple, case: Optional[dict] = None) -> Result:
-        res = self.run_dev(dev)
+        res = self.run_dev(dev, keep=len(dev) <= 1)
         acc.evaluations += 1
         if res.compared:
             acc.nontrivial += 1
@@ -172,10 +186,7 @@ class Explorer:
         # one quoted sample per part (the seed only picks which)
         pick = devs[(ctx.seed * 7919 + len(devs) // 2) % len(devs)]
         res = self.run_dev(pick)
-        out = res.out
-        if isinstance(out, bytes):
-            out = out[:160].hex()
-        ctx.acc.sample(dict(self.case_of(pick), written=(out or '')[:400]), limit=len(ctx.acc.samples) + 1)
+        ctx.acc.sample(dict(self.case_of(pick), written=_show(res.out)), limit=len(ctx.acc.samples) + 1)
         return len(devs)
 
     def replay(self, case: dict) -> list:
@@ -222,35 +233,56 @@ FEATURES: dict = {
 }
 
 
+CMD_FIELDS = ('exe', 'args', 'enabled', 'ensure_file', 'use_proc_win', 'no_wait')
+
+
 def _exe(desc: str):
     if desc.startswith('special:'):
         return cmdseq.SpecialCommand[desc[8:]]
     return desc
 
 
-def build(setting: dict) -> dict:
-    """{sequence name: [Command]} from a setting.  The varied command is the first of the first sequence; further
-    commands / sequences are fixed, distinct fillers (so ordering and record boundaries are observable)."""
-    first = cmdseq.Command(
-        _exe(setting['exe']), setting['args'],
-        enabled=setting['enabled'], ensure_file=setting['ensure_file'],
-        use_proc_win=setting['use_proc_win'], no_wait=setting['no_wait'],
-    )
-    fillers = [
-        cmdseq.Command(cmdseq.SpecialCommand.COPY_FILE, 'src dest', enabled=False, ensure_file='dest',
-                       use_proc_win=False, no_wait=True),
-        cmdseq.Command('$vis_exe', '-fast', enabled=True, ensure_file=None, use_proc_win=True, no_wait=False),
-    ]
-    cmds = ([first] + fillers)[:setting['n_cmds']]
-    seqs: dict = {}
+FILLERS = [
+    {'exe': 'special:COPY_FILE', 'args': 'src dest', 'enabled': False, 'ensure_file': 'dest', 'use_proc_win': False,
+     'no_wait': True},
+    {'exe': '$vis_exe', 'args': '-fast', 'enabled': True, 'ensure_file': None, 'use_proc_win': True, 'no_wait': False},
+]
+
+
+def model(setting: dict) -> list:
+    """Plain-data description [[sequence name, [command dict, ...]], ...] of the value a setting denotes.  The varied
+    command is the first of the first sequence; further commands / sequences are fixed, distinct fillers (so ordering
+    and record boundaries are observable)."""
+    first = {k: setting[k] for k in CMD_FIELDS}
+    seqs = []
     n = setting['n_seqs']
     if n >= 1:
-        seqs[setting['seq_name']] = cmds
+        seqs.append([setting['seq_name'], ([first] + FILLERS)[:setting['n_cmds']]])
     if n >= 2:
-        seqs['Second sequence'] = [fillers[1], fillers[0]]
+        seqs.append(['Second sequence', [FILLERS[1], FILLERS[0]]])
     if n >= 3:
-        seqs['Third (empty)'] = []
+        seqs.append(['Third (empty)', []])
     return seqs
+
+
+def construct(mdl: list) -> dict:
+    return {
+        name: [cmdseq.Command(_exe(c['exe']), c['args'], enabled=c['enabled'], ensure_file=c['ensure_file'],
+                              use_proc_win=c['use_proc_win'], no_wait=c['no_wait']) for c in cmds]
+        for name, cmds in mdl
+    }
+
+
+def expected(mdl: list) -> list:
+    """What observe() must yield for the value: computed from the plain data, not from library objects."""
+    def t(x: Any) -> tuple:
+        return (type(x).__name__, x)
+    return [
+        (t(name), [(('special', c['exe'][8:]) if c['exe'].startswith('special:') else t(c['exe']),
+                    t(c['args']), t(c['enabled']), t(c['ensure_file']), t(c['use_proc_win']), t(c['no_wait']))
+                   for c in cmds])
+        for name, cmds in mdl
+    ]
 
 
 def observe(seqs: Any) -> Any:
@@ -273,8 +305,13 @@ def observe(seqs: Any) -> Any:
     return out
 
 
-def roundtrip(value: dict, res: Result, what: str) -> None:
-    want = observe(value)
+def roundtrip(value: dict, res: Result, what: str, want: Any = None) -> None:
+    if want is None:
+        want = observe(value)
+    elif observe(value) != want:
+        res.fail('cmdseq_value_mismatch', f'{what}: the constructed object does not hold the given value:\n'
+                                          f' given {_short(want)}\n holds {_short(observe(value))}')
+        return
     buf = io.BytesIO()
     try:
         cmdseq.write(value, buf)
@@ -321,11 +358,9 @@ def _first_diff(a: bytes, b: bytes) -> int:
 
 def evaluate(setting: dict) -> Result:
     res = Result()
-    roundtrip(build(setting), res, 'generated value')
+    mdl = model(setting)
+    roundtrip(construct(mdl), res, 'generated value', expected(mdl))
     return res
-
-
-CMD_FIELDS = ('exe', 'args', 'enabled', 'ensure_file', 'use_proc_win', 'no_wait')
 
 
 def inert(dev: dict) -> bool:
@@ -407,7 +442,6 @@ def _full_shard(spec) -> core.Acc:
         if dev and inert(dict(dev)):
             continue
         EXPLORER.record(acc, dev)
-        EXPLORER._memo.pop(dev, None)
     return acc
 
 
@@ -429,7 +463,7 @@ def run(ctx: core.Ctx) -> None:
         n = ctx.acc.evaluations - len(HANDMADE)
         dev = EXPLORER.dev_sets(1)
         pick = list(dev)[(ctx.seed + 5) % 20]
-        ctx.acc.sample(dict(EXPLORER.case_of(pick), written=EXPLORER.run_dev(pick).out[:160].hex()),
+        ctx.acc.sample(dict(EXPLORER.case_of(pick), written=_show(EXPLORER.run_dev(pick).out)),
                        limit=len(ctx.acc.samples) + 1)
         how = f'the full product of all feature values ({n} values; every deviation count 0..{len(FEATURES)})'
     RULE = (
